@@ -119,3 +119,25 @@ func VerifBaseW(outLen uint32, input []uint8, w uint32) []uint8 {
 	CalcBaseW(out, outLen, input, NewWOTSParams(WOTSParamN, w))
 	return out
 }
+
+// VerifClone returns an independent deep copy of x (all mutable state).
+func VerifClone(x *XMSS) *XMSS {
+	b := x.bdsState
+	nb := &BDSState{
+		stack:       verifDup(b.stack),
+		stackOffset: b.stackOffset,
+		stackLevels: verifDup(b.stackLevels),
+		auth:        verifDup(b.auth),
+		keep:        verifDup(b.keep),
+		retain:      verifDup(b.retain),
+		nextLeaf:    b.nextLeaf,
+	}
+	for _, t := range b.treeHash {
+		nb.treeHash = append(nb.treeHash, &TreeHashInst{t.h, t.nextIdx, t.stackUsage, t.completed, verifDup(t.node)})
+	}
+	p := *x.xmssParams
+	w := *x.xmssParams.wotsParams
+	p.wotsParams = &w
+	d := *x.desc
+	return &XMSS{&p, x.hashFunction, x.height, verifDup(x.sk), x.seed, nb, &d}
+}
